@@ -261,10 +261,10 @@ func (option *Option) Set(value *string) error {
 		}
 
 		if !found {
-			allowed := strings.Join(option.Choices[0:len(option.Choices)-1], ", ")
+			allowed := option.Choices[len(option.Choices)-1]
 
 			if len(option.Choices) > 1 {
-				allowed += " or " + option.Choices[len(option.Choices)-1]
+				allowed = strings.Join(option.Choices[0:len(option.Choices)-1], ", ") + " or " + allowed
 			}
 
 			return newErrorf(ErrInvalidChoice,
